@@ -57,8 +57,9 @@ MemTooBig(dict) == dict[2] >= MemDictLimbHi
 \* value of a byte token; of a foreign format's abstract tokens only the first byte of
 \* the file matters here (0xFD of the .xz magic), anything else reads as 0xFF
 ByteVal(t) == IF t.k = "b" THEN t.v ELSE IF t.k = "xh" /\ t.v = 0 THEN 253 ELSE 255
+\* lzma_alone_decoder_init(): everything the header parser accumulates with `|=' starts from zero
 AloneInit(picky) == [seq |-> "props", picky |-> picky, pos |-> 0, props |-> 0,
-                     dict |-> <<0, 0>>, us |-> <<>>, lz |-> LzInit(UNKNOWN, TRUE)]
+                     dict |-> <<0, 0>>, us |-> <<0, 0, 0, 0, 0, 0, 0, 0>>, lz |-> LzInit(UNKNOWN, TRUE)]
 
 AR(c, i, o, r) == [c |-> c, i |-> i, o |-> o, ret |-> r]
 
@@ -87,7 +88,7 @@ AloneRun(c, w, i, o) ==
             ELSE AloneRun([c EXCEPT !.dict = d, !.pos = @ + 1], w, i + 1, o)
     [] c.seq = "usize" ->
          LET b  == w[i + 1].v
-             us == Append(c.us, b) IN
+             us == [c.us EXCEPT ![c.pos + 1] = @ | b] IN      \* uncompressed_size |= in[*in_pos] << (pos * 8)
          IF c.pos + 1 < 8 THEN AloneRun([c EXCEPT !.us = us, !.pos = @ + 1], w, i + 1, o)
          ELSE IF c.picky /\ ~UsizeUnknown(us) /\ UsizeGE256GiB(us)
               THEN AR([c EXCEPT !.us = us, !.pos = 8], i + 1, o, "FORMAT_ERROR")
